@@ -132,14 +132,17 @@ def continuity(job):
 
 def rejection(job):
     cards.silence()
-    kind, mode = job
+    kind, mode, margin = job
     xg = grid()
-    x = xg[0] * 1.0001
-    rho = 2.0
-    mu = (rho**2 - 1) / (4 * x**2)
     from fractions import Fraction
-    ln = dict(oid=f"C10-rej-{kind}-{mode}", what="rejection", kind=kind, mode=mode, xmin=common.ratj(Fraction(xg[0]).limit_denominator(10**6)),
-              p=dict(x=common.ratj(Fraction(x).limit_denominator(10**6)), rho=[2, 1]), outcome="OK", note="")
+    if margin == "far":
+        x, rho, rhoj = xg[0] * 1.0001, 2.0, [2, 1]
+    else:
+        # ON the lowest grid point with a correction of one part in a million: xi = x (1 - 1e-6) is outside by a hair
+        x, rho, rhoj = xg[0], 1.000002, [500001, 500000]
+    mu = (rho**2 - 1) / (4 * x**2)
+    ln = dict(oid=f"C10-rej-{kind}-{mode}-{margin}", what="rejection", kind=kind, mode=mode, xmin=common.ratj(Fraction(xg[0]).limit_denominator(10**6)),
+              p=dict(x=common.ratj(Fraction(x).limit_denominator(10**6)), rho=rhoj), outcome="OK", note="")
     try:
         cards.run(cards.theory(PTO=1, PTODIS=1, TMC=mode, MP=math.sqrt(mu * Q2), mc=2.0, mb=5.0, mt=170.0, Q0=1.0),
                   cards.obs({kind + "_total": [dict(x=x, Q2=Q2)]}, xgrid=xg, deg=3, prDIS="NC"))
@@ -168,7 +171,7 @@ def run(ctx):
     res = ctx.pmap(run_point, list(groups.values()))
     lines = [ln for r in res for ln in r]
     lines += ctx.pmap(continuity, [(k, m, "CC" if k != "g1" else "NC") for k in ("F2", "FL", "F3", "g1") for m in (1, 2, 3)])
-    lines += ctx.pmap(rejection, [(k, m) for k in ("F2", "FL", "F3", "g1") for m in (1, 2, 3)])
+    lines += ctx.pmap(rejection, [(k, m, mg) for k in ("F2", "FL", "F3", "g1") for m in (1, 2, 3) for mg in ("far", "near")])
     for ln in lines:
         ctx.count(1, nontrivial_key=ln["oid"])
     for ln in lines[:: max(1, len(lines) // 3)][:3]:
@@ -185,7 +188,7 @@ def run(ctx):
         if ln["what"] == "formula":
             key = f"formula:{ln['kind']}:mode{ln['mode']}:x{ln['p']['x'][0]}/{ln['p']['x'][1]}:rho{ln['p']['rho'][0]}/{ln['p']['rho'][1]}:{clause}"
         else:
-            key = f"{ln['what']}:{ln['kind']}:mode{ln['mode']}:{clause}"
+            key = f"{ln['what']}:{ln['kind']}:mode{ln['mode']}{':near' if ln['oid'].endswith('near') else ''}:{clause}"
         ctx.violation(key, f"TMC {ln['what']} {ln['kind']} mode {ln['mode']}: {clause} {ln['note']}", dict(kind="C10", line_oid=oid))
 
 
